@@ -383,6 +383,10 @@ class LockSkel:
                 for a in args[1:]:
                     pre += [e for e in self.eff(a, params) if not e.startswith("(KGlobal")]
                 return pre + ["(%s %s)" % (PTHREAD_SYNC[cname], q(self.addr_name(args[0])))]
+            if cname == "pthread_mutexattr_settype" and len(args) == 2 and self.addr_name(args[0]):
+                t = strip(args[1])
+                ty = t.get("referencedDecl", {}).get("name") if t.get("kind") == "DeclRefExpr" else ("int:%s" % t.get("value") if t.get("kind") == "IntegerLiteral" else "?")
+                return ["(KMutexType %s %s)" % (q(self.addr_name(args[0])), q(ty or "?"))]
             if cname == "pthread_atfork" and len(args) == 3:
                 names = [self.addr_name(a) or ("" if strip(a).get("kind") in ("IntegerLiteral", "GNUNullExpr") or strip(a).get("kind") == "CStyleCastExpr" else None) for a in args]
                 if None not in names:
@@ -448,8 +452,16 @@ class LockSkel:
             return []
         if n.get("kind") == "CompoundStmt":
             out = []
-            for c in n.get("inner", []) or []:
-                out += self.stmt(c, params)
+            kids = n.get("inner", []) or []
+            for i, c in enumerate(kids):
+                # `goto L;` out of a loop whose next statement is `L:` is a `break;`: both spellings give the same skeleton
+                nxt = kids[i + 1] if i + 1 < len(kids) else None
+                if c.get("kind") in ("WhileStmt", "ForStmt", "DoStmt") and nxt is not None and nxt.get("kind") == "LabelStmt":
+                    self.exit_label.append(nxt.get("declId"))
+                    out += self.stmt(c, params)
+                    self.exit_label.pop()
+                else:
+                    out += self.stmt(c, params)
             return out
         return self.stmt(n, params)
 
@@ -473,6 +485,19 @@ class LockSkel:
             th = self.stmts(inner[1], params) if len(inner) > 1 else []
             el = self.stmts(inner[2], params) if len(inner) > 2 else []
             return pre + ["(KIf %s %s %s)" % (self.cond(inner[0], params), self.lst(th), self.lst(el))]
+        if k in ("WhileStmt", "DoStmt", "ForStmt"):
+            # the label (if any) right behind THIS loop; loops nested inside it have their own
+            mine = self.exit_label[-1] if (self.exit_label and self.exit_label[-1] is not None and self._loop_claim != id(n)) else None
+            self.loop_exit.append(mine)
+            if self.exit_label and self.exit_label[-1] is not None:
+                self.exit_label[-1] = None          # consumed by this loop
+            try:
+                return self._loop(n, k, params)
+            finally:
+                self.loop_exit.pop()
+        return self._stmt2(n, k, params)
+
+    def _loop(self, n, k, params):
         if k == "WhileStmt":
             inner = n.get("inner", [])
             return ["(KLoop %s %s)" % (self.lst(self.eff(inner[0], params)), self.lst(self.stmts(inner[1], params)))]
@@ -485,15 +510,24 @@ class LockSkel:
             head = self.eff(inner[2], params) if len(inner) >= 5 and inner[2] and inner[2].get("kind") else []
             inc = self.eff(inner[3], params) if len(inner) >= 5 and inner[3] and inner[3].get("kind") else []
             return pre + ["(KLoop %s %s)" % (self.lst(head), self.lst(self.stmts(inner[-1], params) + inc))]
+        return []
+
+    def _stmt2(self, n, k, params):
         if k == "ReturnStmt":
             pre = []
             for c in n.get("inner", []) or []:
                 pre += self.eff(c, params)
             return pre + ["KReturn"]
         if k == "GotoStmt":
-            return ["(KGoto %s)" % q(self.labels.get(n.get("targetLabelDeclId"), "?"))]
+            tgt = n.get("targetLabelDeclId")
+            if self.loop_exit and self.loop_exit[-1] is not None and self.loop_exit[-1] == tgt:
+                self.goto_as_break[tgt] = self.goto_as_break.get(tgt, 0) + 1
+                return ["KBreak"]
+            return ["(KGoto %s)" % q(self.labels.get(tgt, "?"))]
         if k == "LabelStmt":
-            out = ["(KLabel %s)" % q(n.get("name", "?"))]
+            did = n.get("declId")
+            # a label reached only by gotos that were loop exits is no control structure of its own
+            out = [] if (self.goto_count.get(did, 0) > 0 and self.goto_as_break.get(did, 0) == self.goto_count.get(did, 0)) else ["(KLabel %s)" % q(n.get("name", "?"))]
             for c in n.get("inner", []) or []:
                 out += self.stmt(c, params)
             return out
@@ -512,6 +546,8 @@ class LockSkel:
 
     def collect_labels(self, n):
         if isinstance(n, dict):
+            if n.get("kind") == "GotoStmt":
+                self.goto_count[n.get("targetLabelDeclId")] = self.goto_count.get(n.get("targetLabelDeclId"), 0) + 1
             if n.get("kind") == "LabelStmt":
                 self.labels[n.get("declId")] = n.get("name", "?")
             for c in n.get("inner", []) or []:
@@ -522,8 +558,13 @@ class LockSkel:
         params = [c["name"] for c in fn.get("inner", []) if c.get("kind") == "ParmVarDecl" and "name" in c]
         body = [c for c in fn.get("inner", []) if c.get("kind") == "CompoundStmt"][0]
         self.labels = {}
+        saved = (getattr(self, "goto_count", {}), getattr(self, "goto_as_break", {}), getattr(self, "exit_label", []), getattr(self, "loop_exit", []))
+        self.goto_count, self.goto_as_break, self.exit_label, self.loop_exit, self._loop_claim = {}, {}, [], [], None
         self.collect_labels(body)
-        return len(params), self.stmts(body, params)
+        try:
+            return len(params), self.stmts(body, params)
+        finally:
+            self.goto_count, self.goto_as_break, self.exit_label, self.loop_exit = saved
 
 
 def nm_mutable(objs):
